@@ -231,7 +231,7 @@ func doneClosed(h *dispHandler, wait time.Duration) bool {
 	}
 }
 
-var dispCmds = []string{"PRIVMSG", "privmsg", "PrivMsg", "NOTICE", "notice", "301", "INVITE", "invite", girc.ALL_EVENTS}
+var dispCmds = []string{"PRIVMSG", "privmsg", "PrivMsg", "NOTICE", "notice", "301", "INVITE", "invite", "PONG", "pong", girc.ALL_EVENTS}
 
 // runDispSeq: one sequential script. in["script"] = comma separated steps:
 //
@@ -374,6 +374,21 @@ func runDispSeq(c *Ctx, in map[string]string) {
 				c.R.Mismatch("disp.stalled", hin, "no PONG after the nick change back", "")
 				return
 			}
+			syncTmp()
+		case "ownping":
+			// the answer to a PING the CLIENT sent is an event like any other: it reaches the PONG handlers and the wildcard ones
+			id := fmt.Sprintf("lag n=%d", nev)
+			d.c.Cmd.Ping(id)
+			time.Sleep(5 * time.Millisecond)
+			evCmd[nev], evEcho[nev] = "PONG", false
+			model = append(model, "e0:"+hx("PONG"))
+			if !d.send(":srv PONG srv :"+id) || !d.barrier(fmt.Sprintf("op%d", nev)) {
+				c.R.Violation("dispseq.stalled", hin, fmt.Sprintf("no PONG after event %d: the client stopped dispatching events", nev), "", "every event is delivered")
+				return
+			}
+			markDeadline(nev, time.Now())
+			nev++
+			waitExpected(nev-1, nev)
 			syncTmp()
 		case "burst":
 			// several events back to back (no barrier in between): ordering across events is at stake
@@ -616,6 +631,7 @@ func runC06(c *Ctx) {
 		"reg:add:privmsg:normal,reg:addbg:PRIVMSG:normal,reg:add:*:normal,ev:PRIVMSG:0,ev:PRIVMSG:1,ev:NOTICE:0,rm:0,ev:PRIVMSG:0,clear:PrivMsg,ev:PRIVMSG:0,clearall,ev:PRIVMSG:0",
 		"reg:tmp:PRIVMSG:trueat1,ev:PRIVMSG:0,ev:PRIVMSG:0,reg:tmp:NOTICE:trueat2,ev:NOTICE:0,ev:NOTICE:0,ev:NOTICE:0,reg:tmpdl:301:normal,ev:301:0,sleep,ev:301:0",
 		"reg:add:PRIVMSG:panic,reg:add:PRIVMSG:normal,reg:addbg:*:panic,ev:PRIVMSG:0,ev:PRIVMSG:0,ev:NOTICE:0",
+		"reg:add:PONG:normal,reg:add:*:normal,reg:addbg:pong:normal,ownping,ev:PONG:0,ownping,ev:PRIVMSG:0,ownping",
 	}
 	for _, s := range corpus {
 		c.run("dispseq", map[string]string{"script": s, "recover": "1"})
